@@ -335,14 +335,39 @@ Lemma unbound_first_query_params m f :
 Proof.
   unfold unbound_first, query_params. intros Hin H.
   destruct (r_pat (m_rule m)) as [| |vb ur]; try discriminate.
-  apply andb_true_iff in H. destruct H as [H Hb3].
-  apply andb_true_iff in H. destruct H as [Hb1 Hb2].
+  apply andb_true_iff in H. destruct H as [Hb1 Hb3].
   apply negb_true_iff in Hb1. cbv zeta. rewrite Hb1.
   apply mem_str_In. apply filter_In. split.
   - apply in_map_iff. exists f. split; [reflexivity | exact Hin].
   - apply negb_true_iff in Hb3. apply negb_true_iff.
-    rewrite mem_str_app in *. apply orb_false_iff in Hb3. destruct Hb3 as [Ha Hb].
+    rewrite map_app, mem_str_app in *. apply orb_false_iff in Hb3. destruct Hb3 as [Ha Hb].
     rewrite Ha. simpl. destruct (is_empty (r_body (m_rule m))); [reflexivity | exact Hb].
+Qed.
+
+(* since c409a6e: a field named by the first rule (path variable or body) never enters the defaults table,
+   reserved word or not *)
+Lemma query_params_exclude_bound m verb u f :
+  r_pat (m_rule m) = PVerb verb u ->
+  mem_str (field_attr (f_name f)) (query_params m) = true ->
+  ~ In (f_name f) (path_params u ++ (if is_empty (r_body (m_rule m)) then [] else [r_body (m_rule m)])).
+Proof.
+  unfold query_params. intros Hp H Hin. rewrite Hp in H. cbv zeta in H.
+  destruct (String.eqb (r_body (m_rule m)) "*"); [discriminate|].
+  apply mem_str_In in H. apply filter_In in H. destruct H as [_ H].
+  apply negb_true_iff in H.
+  assert (E : mem_str (field_attr (f_name f))
+                (map field_attr (path_params u ++ (if is_empty (r_body (m_rule m)) then [] else [r_body (m_rule m)]))) = true).
+  { apply mem_str_In. apply in_map. exact Hin. }
+  congruence.
+Qed.
+
+Lemma defaults_exclude_bound m verb u f :
+  r_pat (m_rule m) = PVerb verb u ->
+  In f (filter (fun f => f_required f && mem_str (field_attr (f_name f)) (query_params m)) (m_fields m)) ->
+  ~ In (f_name f) (path_params u ++ (if is_empty (r_body (m_rule m)) then [] else [r_body (m_rule m)])).
+Proof.
+  intros Hp H. apply filter_In in H. destruct H as [_ H]. apply andb_true_iff in H.
+  eapply query_params_exclude_bound; [exact Hp | apply H].
 Qed.
 
 Lemma required_defaults_complete_l numeric m r v u q bd f :
@@ -541,19 +566,14 @@ Lemma defaults_duplicate_additional_refuted :
     In ("big", "5") b /\ In ("big", "0") q.
 Proof. eexists. eexists. split; [vm_compute; reflexivity|]. split; simpl; tauto. Qed.
 
-(* (c) a required field whose name is a reserved word, bound by the path of the first rule, is sent again in the
-   query with the default value: query_params compares the suffixed key with the unsuffixed path parameter *)
+(* (c) formerly refuted (fixed by c409a6e): a required reserved-word field bound by the path of the first rule is
+   NOT sent again in the query *)
 Definition kw_method : method :=
   mkMethod [fld "class" 9 true] (mkRule (PVerb "get" "/v1/{class=items/*}") "") [] false.
-Lemma defaults_duplicate_reserved_refuted :
-  exists q, run false kw_method [sleaf [F "class"] "items/c"] = Sent "get" "/v1/items/c" q None /\
-    In ("class", "") q /\
-    (forall t, transcode (attrs_of kw_method) (http_options kw_method) [sleaf [F "class"] "items/c"] = Some t ->
-               t_path t = [sleaf [F "class"] "items/c"]).
-Proof.
-  eexists. split; [vm_compute; reflexivity|]. split; [simpl; tauto|].
-  intros t Ht. vm_compute in Ht. now inversion Ht.
-Qed.
+Example reserved_path_variable_not_duplicated :
+  run false kw_method [sleaf [F "class"] "items/c"] = Sent "get" "/v1/items/c" [] None /\
+  defaults_table kw_method = Some [].
+Proof. split; vm_compute; reflexivity. Qed.
 
 (* (d) whether a body is sent is decided by the first binding: a later binding without body crashes (KeyError),
    a later binding WITH body under a body-less first rule loses the body *)
@@ -599,6 +619,9 @@ Example pin_TRY_PARSE_TESTS :
   TRY_PARSE_TESTS_src = "method is None or method == 'custom' ; not uri ; body in utils.RESERVED_NAMES and (not body.endswith('_'))"%string.
 Proof. reflexivity. Qed.
 Example pin_QUERY_PARAMS_RETURN : QUERY_PARAMS_RETURN_src = "set(self.input.fields) - params ; set() ; set()"%string.
+Proof. reflexivity. Qed.
+Example pin_QUERY_PARAMS_SUFFIX :
+  QUERY_PARAMS_SUFFIX_src = "if self.input.meta.address.is_proto_plus_type: params = {param + '_' if param in utils.RESERVED_NAMES else param for param in params}"%string.
 Proof. reflexivity. Qed.
 Example pin_VARIABLE_RE :
   VARIABLE_RE_src = "((?P<positional>\*\*?)|{(?P<name>[^/]+?)(?:=(?P<template>.+?))?})"%string.
